@@ -70,6 +70,10 @@ MUTANTS = [
      "        x.data = [cls._identity() for i in range(n)]  # make n copies of the data\n",
      "        x.data = [cls._identity() for i in range(n or 1)]  # make n copies of the data\n",
      'Alloc(0) returns one value'),
+    ('c10_iter_never_stops', 'C10', 'spatialmath/smuserlist.py',
+     "        else:\n            return self.__class__(self.data[i])\n",
+     "        else:\n            return self.__class__(self.data[i if i < 0 else i % max(len(self.data), 1)])\n",
+     'non-negative indices wrap around, so iteration over a non-empty object never ends'),
     # ------------------------------------------------------------------ C17
     ('c17_trnorm_writes_caller', 'C17', 'spatialmath/base/transforms3d.py',
      "    if ishom(T):\n        return base.rt2tr(R, T[:3, 3])\n    else:\n        return R\n",
